@@ -200,7 +200,18 @@ type excState struct {
 
 func (f *frame) wantUnwind() bool {
 	top := f.enc.top
-	return top != nil && top.contract != nil && (len(top.contract.Unwind) > 0 || len(top.contract.Preserves) > 0 || len(top.contract.OnlyAt) > 0)
+	if top == nil || top.contract == nil {
+		return false
+	}
+	if len(top.contract.Unwind) > 0 || len(top.contract.Preserves) > 0 || len(top.contract.OnlyAt) > 0 {
+		return true
+	}
+	for _, cs := range top.contract.Calls {
+		if cs.Negative {
+			return true // "nocall" also speaks about the paths that end in a panic
+		}
+	}
+	return false
 }
 
 func (f *frame) recordExc(label string, pos token.Pos, pc string, heap Heap) {
